@@ -90,3 +90,57 @@ def cases(ctx, tier):
         t += rng.choice([b'', b'', b' ', b'\n', b' x', b'x', b' -x', b' .5'])
         out.append(('gmp_scan_partial %d %s' % (rng.getrandbits(1), hb(t)), 'scan-count'))
     return out
+
+# ---- %Fe / %Ff through a certificate evaluated by the model ----
+def f_cases(ctx, tier):
+    rng = ctx.rng('F')
+    res = []
+    from fractions import Fraction
+    def dy(x, fb=64):
+        m = int(x * (1 << fb)); return m, -fb
+    targets = []
+    for k in (1, 2, 3, 10):
+        top = 1 << (64 * k)
+        for frac in (Fraction(46, 100), Fraction(2046, 10000), Fraction(1, 2) - Fraction(1, 10 ** 9), Fraction(999999, 1000000), Fraction(1, 3)):
+            for ip in (top - 1, top - rng.getrandbits(20), top // 2 + 1, top, top + 1, 10 ** 19, 18 * 10 ** 18, 10 ** 19 - 1, 10 ** (19 * k), (top * 15) // 16 + rng.getrandbits(30)):
+                targets.append(ip + frac)
+    for _ in range(60 if tier == 'quick' else 600):
+        targets.append(Fraction(rng.getrandbits(rng.randrange(1, 200)), 1 << rng.randrange(0, 100)))
+        targets.append(Fraction(rng.getrandbits(60) | 1, 10 ** rng.randrange(1, 40)))
+    targets += [Fraction(0), Fraction(1), Fraction(1, 2), Fraction(5, 2), Fraction(999, 1000), Fraction(9999999, 10000000), Fraction(10 ** 30 - 1), Fraction(1, 10 ** 30)]
+    for x in targets:
+        m, e = dy(x, rng.choice([64, 64, 128]))
+        if rng.random() < 0.3: m = -m
+        for conv in 'fe':
+            P = rng.choice([0, 0, 1, 2, 2, 6, 20])
+            fl = rng.choice(['', '', '-', '+', ' ']); w = rng.choice([0, 0, 30, 70])
+            spec = fl + (str(w) if w else '') + '.' + str(P)
+            res.append((spec, conv, P, w, m, e))
+    return res
+
+def extra(ctx):
+    cs = f_cases(ctx, ctx.tier)
+    lines = ['gmp_printf_F %s %x 40 %s %s' % (hb(spec.encode()), ord(conv), hx(m), hx(e)) for spec, conv, P, w, m, e in cs]
+    outs = vlib.run_robust(vlib.impl_cmd(ctx.impl), lines, timeout=600, died='CRASH')
+    certs = []; origin = []; bad = []
+    for (spec, conv, P, w, m, e), ln, o in zip(cs, lines, outs):
+        t = o.split()
+        if len(t) != 2 or not t[0].startswith('x:'):
+            bad.append((ln, o, 'malformed or flagged output')); continue
+        if int(t[1], 16) != (len(t[0]) - 2) // 2:
+            bad.append((ln, o, 'return value is not the length')); continue
+        certs.append('ffmtcheck %x %x %x %s %s %s' % (ord(conv), P, w, hx(m), hx(e), t[0])); origin.append((ln, o))
+    mo = vlib.run_robust(vlib.model_cmd(), certs, timeout=600, died='MODEL-DIED') if certs else []
+    n_ok = 0
+    for (ln, o), m in zip(origin, mo):
+        if m.strip() == '1': n_ok += 1
+        else:
+            try: txt = bytes.fromhex(o.split()[0][2:]).decode('latin1')
+            except Exception: txt = '?'
+            bad.append((ln, o, 'the model rejects the %%F certificate: printed "%s" (%s)' % (txt[:120], m[:40])))
+    ctx.extra_cov['F_conversion_certificates'] = n_ok; ctx.extra_cov['F_conversion_cases'] = len(cs)
+    ev = getattr(ctx, 'extra_violations', [])
+    for ln, o, why in bad[:3]:
+        ev.append({'kind': 'F-conversion-certificate', 'cases': [ln], 'implementation_output': o[:2000], 'note': why, 'key': ln[:200],
+                   'theorem': 'C18 (%F follows the manual: the printed decimal is the value rounded to the requested digits, laid out as C does)'})
+    ctx.extra_violations = ev
